@@ -77,6 +77,16 @@ def x_failed(step):
     """the first command of the step reached the editor with an operator and a motion that evaluated to Null"""
     for t in step["trace"]:
         if t["k"] == "lb":
+            m = re.match(r"ReplaceCharInplace\(.*, (\d+)\)$", t.get("verb") or "", re.S)
+            if m:
+                # `[n]r<c>` fails when fewer than n characters are left on the cursor line
+                gs = graphemes_of(t["buf"], t["fresh"])
+                left = 0
+                for g in gs[t["cur"]["value"]:]:
+                    if g == "\n":
+                        break
+                    left += 1
+                return int(m.group(1)) > left
             return t.get("verb") is not None and "motion=Some" in t.get("cmd", "") and t.get("mk") == "Null"
     return False
 
